@@ -6,6 +6,7 @@ package main
 //   from the extracted randomness, and Verify must return the expected caveat list.
 
 import (
+	"crypto/sha256"
 	"bytes"
 	"fmt"
 	"strings"
@@ -208,6 +209,21 @@ func famLegit(r *Rng, o *Out, tier string) {
 					} else {
 						outs = append(outs, "add:ok")
 					}
+				}
+				// a binding caveat is "a prefix of the SHA-256 of the parent's tail": Bind writes 16 bytes, any other
+				// length (shorter, longer, the whole digest) is just as legitimate when written by hand
+				if r.Chance(1, 4) {
+					fm, _ := macaroon.Decode(final)
+					dg := sha256.Sum256(fm.Tail)
+					bc := macaroon.BindToParentToken(dg[:pick(r, []int{1, 2, 8, 15, 17, 20, 31, 32})])
+					err := dm.Add(&bc)
+					ops = append(ops, "(add "+sxCav(&bc)+")")
+					if err != nil {
+						outs = append(outs, "add:"+addClass(err))
+					} else {
+						outs = append(outs, "add:ok")
+					}
+					o.count(fmt.Sprintf("bound.byhand.len%d", len(bc)))
 				}
 				if r.Bool() {
 					parent := pick(r, ancestors)
